@@ -168,12 +168,14 @@ def _opts(w, tier, **kw):
     return o
 
 
-def ob_rewriter(rw, op, w, arity=2, tier="quick", iw=None):
+def ob_rewriter(rw, op, w, arity=2, tier="quick", iw=None, annotated=False):
     fn = rw
     """{well-typed args} S(*args) {result is None or [[result]] == [[op]](args)}; raises nothing."""
     ns = load()
     f = ns[fn]
     proxies.set_iw(iw or max(3 * max(w, 8) + 10, 40))
+
+    annotated_mode = annotated
 
     def body(c):
         args = _roots(c, op, w, arity)
@@ -206,9 +208,26 @@ def ob_rewriter(rw, op, w, arity=2, tier="quick", iw=None):
             c.fail(f"{fn}/sort", f"result sort {res.den.sort()} != {ref.sort()}", kind="C05")
             return "badsort"
         c.check(f"{fn}/meaning", res.den == ref, "rewritten expression is not equivalent to the written operation")
+        if annotated_mode and annotated:
+            # a rewriter that reports annotated=True bypasses _handle_annotations: it must itself keep every
+            # non-eliminatable annotation of its arguments reachable and carry their relocatable annotations (C07)
+            c.n_vcs += 1
+            need_u = set().union(*[set(a._uneliminatable_annotations) for a in nodes])
+            need_r = set().union(*[set(a._relocatable_annotations) for a in nodes])
+            have_u = set(res._uneliminatable_annotations) | getattr(res.root(), "child_unelim", set())
+            if not need_u <= have_u:
+                c.fail(f"{fn}/annotated-flag-uneliminatable", f"rewrite reports annotated=True but eliminates {sorted(map(repr, need_u - have_u))}", kind="C07")
+            if not need_r <= set(res._relocatable_annotations):
+                c.fail(f"{fn}/annotated-flag-relocatable", "rewrite reports annotated=True but does not carry the relocatable annotations of its arguments", kind="C07")
+            return "rewrite-annotated"
         return "rewrite"
 
     t = {"kwargs": {"rw": rw, "op": op, "w": w}}
+    if annotated_mode:
+        from vf.contracts import annos as AN
+        return explore(body, _opts(w, tier, mentioned=mentioned_ops(fn), annotations=[AN.UNIVERSE[1], AN.UNIVERSE[2]],
+                                   replay=lambda f: ({"reproduced": True, "text": "annotation clause (no expression-level replay)"}
+                                                     if "annotated-flag" in f.get("label", "") else replay_rewriter(t, f))))
     return explore(body, _opts(w, tier, mentioned=mentioned_ops(fn), replay=lambda f: replay_rewriter(t, f)))
 
 
